@@ -29,6 +29,7 @@ class TLCResult:
         self.stdout = ''
         self.wall = 0.0
         self.cmd = ''
+        self.all_violations = []
 
 
 def write_cfg(path, spec='Spec', constants=None, invariants=(), properties=(), constraint=None,
@@ -66,7 +67,7 @@ _cov = re.compile(r'^<(\w+) line \d+, col \d+ to line \d+, col \d+ of module (\w
 
 def run_tlc(module, cfg, workdir=None, workers=None, timeout=1800, env=None, simulate=None,
             depth=None, dump=None, coverage=False, seed=None, extra_args=(), java_opts=None,
-            keep=False, dfs=False):
+            keep=False, dfs=False, cont=False):
     """Run TLC on /verif/spec/<module>.tla with config file cfg (absolute, or relative to spec/).
 
     simulate: None or string like 'num=100' (adds -simulate); dump: path prefix for -dump dot,actionlabels.
@@ -88,6 +89,8 @@ def run_tlc(module, cfg, workdir=None, workers=None, timeout=1800, env=None, sim
         cmd += ['-coverage', '1']
     if seed is not None:
         cmd += ['-seed', str(seed)]
+    if cont:
+        cmd.append('-continue')
     cmd += list(extra_args)
     cmd.append(module)
     e = dict(os.environ)
@@ -124,6 +127,7 @@ def run_tlc(module, cfg, workdir=None, workers=None, timeout=1800, env=None, sim
         old = res.coverage.get(name, (0, 0))
         res.coverage[name] = (old[0] + d, old[1] + g)
     res.printed = _parse_printed(out)
+    res.all_violations = [(a, int(b)) for a, b in re.findall(r'Error: Invariant (\w+) is violated by the initial state:\s*\n(?:/\\ )?k = (\d+)', out)]
     if 'Model checking completed. No error has been found.' in out or \
             (simulate is not None and 'Error:' not in out and p.returncode == 0):
         res.ok = True
